@@ -277,6 +277,7 @@ func main() {
 			want: []string{"WitnessScaleFactor", "DefaultSequence", "MinusOne", "OutpointIndexMask", "OutpointIssuanceFlag", "OutpointPeginFlag",
 				"advancedTransactionFlag", "advancedTransactionMarker", "SighashRangeproof", "sighashInputMask", "sighashOutputMask", "One", "Zero", "MaxConfidentialValue"}},
 		{src: "blech32/blech32.go", dst: "Blech32Consts.v", all: true},
+		{src: "address/address.go", dst: "AddressConsts.v", all: true},
 		{src: "block/merkle_block.go", dst: "MerkleConsts.v", all: true},
 		{src: "psetv2/global.go", dst: "PsetV2GlobalConsts.v", all: true},
 		{src: "psetv2/input.go", dst: "PsetV2InputConsts.v", all: true},
